@@ -431,7 +431,9 @@ TIERS = {
                         ("AxialRemesh_sliver.cfg", ZU_SLIVER, "sliver"), ("AxialRemesh_sliver2.cfg", ZU_SLIVER, "sliver2")],
         "resample": "Resample_mc.cfg",
         "filter": "FilterMesh_mc.cfg",
-        "common": [("CommonMesh_mc.cfg", 5, "avg"), ("CommonMesh_planes.cfg", 7, "planes")],
+        "common": [("CommonMesh_mc.cfg", 5, "avg"), ("CommonMesh_planes.cfg", 7, "planes"), ("CommonMesh_outlier.cfg", 10, "outlier")],
+        "average": "AverageMesh_mc.cfg",
+        "core": "CoreRemesh_mc.cfg",
     },
     "thorough": {
         "remesh_mc": [("AxialRemesh_mc_thorough.cfg", ("DoMakeUniform", "DoSolve", "MapBack")),
@@ -441,10 +443,13 @@ TIERS = {
                         ("AxialRemesh_sliver.cfg", ZU_SLIVER, "sliver"), ("AxialRemesh_sliver2.cfg", ZU_SLIVER, "sliver2")],
         "resample": "Resample_thorough.cfg",
         "filter": "FilterMesh_thorough.cfg",
-        "common": [("CommonMesh_thorough.cfg", 6, "avg"), ("CommonMesh_planes_thorough.cfg", 8, "planes")],
+        "common": [("CommonMesh_thorough.cfg", 6, "avg"), ("CommonMesh_planes_thorough.cfg", 8, "planes"),
+                   ("CommonMesh_outlier_thorough.cfg", 10, "outlier")],
+        "average": "AverageMesh_thorough.cfg",
+        "core": "CoreRemesh_thorough.cfg",
     },
 }
-PARTS = ("remesh", "resample", "filter", "common")
+PARTS = ("remesh", "resample", "filter", "common", "average", "core")
 _ST = {"on": False, "parts": None, "stride": 1}
 _TLC_CACHE = {}
 
@@ -465,7 +470,7 @@ def run(rep, tier, seed):
     parts = _ST["parts"] or PARTS
     armi_ready()
     warnings.filterwarnings("ignore", category=RuntimeWarning)
-    for m in ("AxialRemesh_mc", "Resample", "FilterMesh", "CommonMesh"):
+    for m in ("AxialRemesh_mc", "Resample", "FilterMesh", "CommonMesh", "AverageMesh", "CoreRemesh_mc"):
         if (m, "sany") not in _TLC_CACHE:
             tlc.sany(m, MODDIR)
             _TLC_CACHE[(m, "sany")] = True
@@ -489,6 +494,10 @@ def run(rep, tier, seed):
         if "common" in parts:
             for cfg, _hc, _fam in T["common"]:
                 jobs[cfg] = pool.submit(_tlc, "CommonMesh", cfg, 1, True)
+        if "average" in parts:
+            jobs[T["average"]] = pool.submit(_tlc, "AverageMesh", T["average"], 1, True)
+        if "core" in parts:
+            jobs[T["core"]] = pool.submit(_tlc, "CoreRemesh_mc", T["core"], 2, True)
         if "remesh" in parts and not _ST["on"]:
             for cfg, _acts in T["remesh_mc"]:
                 jobs[cfg] = pool.submit(_tlc, "AxialRemesh_mc", cfg, 8, False)
@@ -518,6 +527,10 @@ def run(rep, tier, seed):
         if "common" in parts:
             for cfg, hc, fam in T["common"]:
                 timed("common:" + fam, _check_common, rep, result(cfg), hc, fam)
+        if "average" in parts:
+            timed("average", _check_average, rep, result(T["average"]))
+        if "core" in parts:
+            timed("core", _check_core, rep, result(T["core"]), T["core"])
         if "remesh" in parts:
             for cfg, zu, label in T["remesh_emit"]:
                 timed("replay:" + label, _replay_remesh, rep, result(cfg), zu, label, cfg)
@@ -538,6 +551,9 @@ def run(rep, tier, seed):
         "rtol 1e-7 (+1e-7 value units); peaks and None-ness are discontinuous in a 1e-9 cm sliver and are not compared there",
         "resampleStepwise: output points inside the input range; _filterMesh: anchors are candidates; dyadic cm scales so that "
         "gap-versus-minimum comparisons are exact as in the integer model",
+        "whole core: a third-core (periodic) Reactor built from real blueprints (armi/tests/detailedAxialExpansion) whose assemblies are replaced "
+        "by generated ones (centre fuel assembly with symmetry factor 3, fuel, control, outlier fuel); decusping off (that is CommonMesh); "
+        "integrated values are those held by the blocks; calcReactionRates off (no cross-section library)",
         "generateCommonMesh: cores of three assemblies (fuel reference, control with 3 or 4 blocks, fuel with 4 blocks; two meshes averaged) "
         "and cores of two assemblies where the fuel reference has regular non-material planes below / above the fuel and the control "
         "bottom and top take every position around them",
@@ -630,8 +646,14 @@ def _check_filter(rep, r, rng):
 def _check_common(rep, r, hc, fam):
     cases = [p for p in r.prints if isinstance(p, dict) and "c" in p]
     outcomes = {p["outcome"] for p in cases}
-    if outcomes != ({"avg", "anchors", "mesh"} if fam == "avg" else {"anchors", "mesh"}):
+    if outcomes != ({"anchors", "mesh"} if fam == "planes" else {"avg", "anchors", "mesh"}):
         raise tlc.MachineryError("common-mesh cases vacuous: outcomes %s" % outcomes)
+    if fam == "outlier":
+        # the scenario the family exists for: three meshes enter the average, one is thrown out, the common mesh is built from the rest
+        n = sum(1 for p in cases if p["outcome"] == "mesh" and p["rows"] == 3 and p["kept"] == 2)
+        rep.extra["common_mesh_outlier_dropped_cases"] = n
+        if not n:
+            raise tlc.MachineryError("common-mesh outlier cases vacuous")
     if fam == "planes":
         # the scenario the family exists for: a control boundary strictly inside the minimum-size window of a regular plane
         near = {side: sum(1 for p in cases if p["outcome"] == "mesh" and p["near"][side]) for side in ("above", "below")}
@@ -657,6 +679,68 @@ def _check_common(rep, r, hc, fam):
     rep.sample({"kind": "common-mesh-case", "case": cases[len(cases) // 2]})
 
 
+def _check_average(rep, r):
+    import numpy as np
+    from armi.utils.mathematics import average1DWithinTolerance
+
+    cases = [p for p in r.prints if isinstance(p, dict) and "rows" in p]
+    if not any(p["ok"] and 0 < p["kept"] < len(p["rows"]) for p in cases) or not any(not p["ok"] for p in cases):
+        raise tlc.MachineryError("average1DWithinTolerance cases vacuous")
+    n = nt = 0
+    for p in cases:
+        n += 1
+        nt += 1 if p["kept"] < len(p["rows"]) else 0
+        f = run_average_case(p, average1DWithinTolerance, np)
+        if f:
+            rep.violation("average:%s" % f[0], "average1DWithinTolerance differs from AverageMesh for rows %s: %s" % (p["rows"], f[1]),
+                          {"direction": "replay", "kind": "average", "case": p})
+    rep.add_replay("average-cases", n, nt, "every enumerated array (2-4 rows) is passed to average1DWithinTolerance; compared: ValueError or the "
+                   "returned means; non-trivial = at least one row is thrown out")
+    rep.sample({"kind": "average-case", "case": cases[len(cases) // 2]})
+
+
+def run_average_case(p, fn, np):
+    try:
+        got = [float(x) for x in fn(np.array(p["rows"], dtype=float) * FU)]
+        ok = True
+    except ValueError as ex:
+        got, ok = str(ex)[:100], False
+    if ok != p["ok"]:
+        return ("raises" if not ok else "no-error", "expected %s, observed %s" % ("means" if p["ok"] else "ValueError", got))
+    if ok:
+        d = rp.diff([m * FU / 12.0 for m in p["mean"]], got, ".mean")
+        if d:
+            return ("mean", d)
+    return None
+
+
+def _check_core(rep, r, cfg):
+    states = [p for p in r.prints if isinstance(p, dict) and "ini" in p]
+    by_key = {(rp.skey(s["ini"]), rp.skey(s["hist"])): s for s in states}
+    prefixes = {(rp.skey(s["ini"]), rp.skey(s["hist"][:k])) for s in states for k in range(len(s["hist"]))}
+    leaves = [s for s in states if (rp.skey(s["ini"]), rp.skey(s["hist"])) not in prefixes]
+    stages = {s["stage"] for s in states}
+    if not {"conv", "solved", "back", "grown", "conv2"} <= stages or not any(len(s["obs"]["core"]) == 4 for s in states):
+        raise tlc.MachineryError("core histories vacuous: stages %s" % stages)
+    ad = CoreAdapter()
+    done = set()
+    for i, lf in enumerate(leaves):
+        if _ST["stride"] > 1 and len(leaves) > 100 and i % _ST["stride"]:
+            continue
+        for d in run_core_history(ad, lf, by_key, done):
+            mode = next((a["mode"] for a in d["behaviour"] if a["n"] == "Convert"), "-")
+            rep.violation(key_of("core:" + mode, d), "real reactor diverges from CoreRemesh after %s on core %s: %s" % (
+                json.dumps(d["behaviour"]), json.dumps(d["ini"]), d["first_difference"]),
+                dict(d, direction="replay", kind="core", chain=[by_key[(rp.skey(lf["ini"]), rp.skey(lf["hist"][:k]))] for k in range(len(lf["hist"]) + 1)]))
+    rep.add_replay("core-histories:" + cfg, len(done), len(done) - sum(1 for k in done if k[1] == "[]"),
+                   "every maximal history TLC found (convert / solve / applyStateToOriginal / grow / convert again, per converter class and mode) "
+                   "is executed once on a real third-core Reactor; every prefix state is compared: all assemblies of the original and of the "
+                   "converted core (heights, densities, 8 parameters, atoms, integrated totals), the common mesh and a core parameter")
+    rep.extra["core_histories"] = {"leaves": len(leaves), "states_compared": len(done)}
+    mid = leaves[len(leaves) // 2]
+    rep.sample({"kind": "core-history", "ini": mid["ini"], "hist": mid["hist"], "expected_mesh": mid["obs"]["mesh"]})
+
+
 def replay(payload):
     armi_ready()
     kind = payload.get("kind")
@@ -679,6 +763,19 @@ def replay(payload):
         f = run_filter_case(payload["case"], random.Random(0))
         print(f if f else "no divergence: case conforms")
         return 1 if f else 0
+    if kind == "core":
+        chain = payload["chain"]
+        by_key = {(rp.skey(x["ini"]), rp.skey(x["hist"])): x for x in chain}
+        ds = run_core_history(CoreAdapter(), chain[-1], by_key, set())
+        print(json.dumps([{k: v for k, v in d.items() if k != "expected"} for d in ds], indent=1, default=str)[:6000] if ds else "no divergence: history conforms")
+        return 1 if ds else 0
+    if kind == "average":
+        import numpy as np
+        from armi.utils.mathematics import average1DWithinTolerance
+
+        f = run_average_case(payload["case"], average1DWithinTolerance, np)
+        print(f if f else "no divergence: case conforms")
+        return 1 if f else 0
     if kind == "common":
         f = CommonMeshAdapter().run_case(payload["case"], payload["hc"])
         print(f if f else "no divergence: case conforms")
@@ -691,7 +788,8 @@ def replay(payload):
 # binding demonstration: realistic in-process mutants of the anchored code
 # ------------------------------------------------------------------------------------------------------------
 def _src_mutant(owner, name, old, new, also=()):
-    """context manager factory: re-compile owner.name with `old` replaced by `new` (must occur) and patch it in"""
+    """context manager factory: re-compile owner.name with `old` replaced by `new` (must occur) and patch it in;
+    old may be a list of (old, new) pairs (then new is ignored)"""
     import contextlib
     import inspect
     import textwrap
@@ -701,9 +799,11 @@ def _src_mutant(owner, name, old, new, also=()):
     f = owner.__dict__[name]
     raw = f.__func__ if isinstance(f, (staticmethod, classmethod)) else f
     src = inspect.getsource(raw)  # replacement texts carry the indentation of the source file
-    if old not in src:
-        raise tlc.MachineryError("mutant text not found in %s.%s: %r" % (getattr(owner, "__name__", owner), name, old))
-    lines = textwrap.dedent(src.replace(old, new)).splitlines()
+    for o_, n_ in (old if isinstance(old, list) else [(old, new)]):
+        if o_ not in src:
+            raise tlc.MachineryError("mutant text not found in %s.%s: %r" % (getattr(owner, "__name__", owner), name, o_))
+        src = src.replace(o_, n_)
+    lines = textwrap.dedent(src).splitlines()
     while lines[0].lstrip().startswith("@"):
         lines.pop(0)
     ns = {}
@@ -732,7 +832,11 @@ def selftest():
     from armi.reactor.converters import uniformMesh as um
     from armi.utils import mathematics
 
+    from armi.reactor import cores
+
     A = assemblies.Assembly
+    NC = um.NeutronicsUniformMeshConverter
+    GC = um.GammaUniformMeshConverter
     C = um.UniformMeshGeometryConverter
     G = um.UniformMeshGenerator
     M = _src_mutant
@@ -781,6 +885,32 @@ def selftest():
         ("filter", "_filterMesh: anchor test on the wrong neighbour", lambda: M(G, "_filterMesh", "if meshList[i + 1] in anchorPoints:\n                        removeIndex = i", "if meshList[i] in anchorPoints:\n                        removeIndex = i")),
         ("filter", "_filterMesh: top preference sorts ascending", lambda: M(G, "_filterMesh", "sorted(list(set(meshList)), reverse=True)", "sorted(list(set(meshList)))")),
         ("filter", "_filterMesh: two close anchors tolerated silently", lambda: M(G, "_filterMesh", "raise ValueError(errorMsg)", "return sorted(meshList)")),
+        ("average", "seed C11-2.1: average1DWithinTolerance computes the mean once, before the outlier filter",
+         lambda: M(mathematics, "average1DWithinTolerance", [("    filterOut = np.array([False])", "    avg = vals.mean(axis=0)\n    filterOut = np.array([False])"),
+                                                             ("        avg = vals.mean(axis=0)  # average over all columns\n", "")], None, also=(um, cores))),
+        ("common", "seed C11-2.1: average1DWithinTolerance computes the mean once, before the outlier filter",
+         lambda: M(mathematics, "average1DWithinTolerance", [("    filterOut = np.array([False])", "    avg = vals.mean(axis=0)\n    filterOut = np.array([False])"),
+                                                             ("        avg = vals.mean(axis=0)  # average over all columns\n", "")], None, also=(um, cores))),
+        ("core", "seed C11-2.1: average1DWithinTolerance computes the mean once, before the outlier filter",
+         lambda: M(mathematics, "average1DWithinTolerance", [("    filterOut = np.array([False])", "    avg = vals.mean(axis=0)\n    filterOut = np.array([False])"),
+                                                             ("        avg = vals.mean(axis=0)  # average over all columns\n", "")], None, also=(um, cores))),
+        ("core", "seed C11-2.3: convert(), flagged branch: locator handed to Core.add instead of carried by the new assembly",
+         lambda: M(C, "convert", [("                homogAssem.spatialLocator = assem.spatialLocator\n", ""),
+                                  ("self.convReactor.core.add(homogAssem)", "self.convReactor.core.add(homogAssem, assem.spatialLocator)")], None)),
+        ("core", "seed C11-2.4: _generateUniformMesh keeps the mesh of an earlier conversion",
+         lambda: M(C, "_generateUniformMesh", "        generator = UniformMeshGenerator(", "        if self._uniformMesh is not None:\n            return\n        generator = UniformMeshGenerator(")),
+        ("core", "seed C11-2.5: gamma converter does not map out what belongs to a category mapped in",
+         lambda: M(GC, "_setParamsToUpdate", "        else:\n            excludeList = b.p.paramDefs.inCategory(parameters.Category.gamma).names",
+                   "            for category in self.blockParamMappingCategories[\"in\"]:\n                excludeList = excludeList + b.p.paramDefs.inCategory(category).names\n"
+                   "        else:\n            excludeList = b.p.paramDefs.inCategory(parameters.Category.gamma).names")),
+        ("core", "neutronics converter maps cumulative parameters out", lambda: M(NC, "_setParamsToUpdate", "excludedCategories.append(parameters.Category.cumulative)\n", "pass\n")),
+        ("core", "neutronics converter forgets the heavy-metal parameters on the way in", lambda: M(NC, "_setParamsToUpdate", "blockParamNames.extend(HEAVY_METAL_PARAMS)", "pass")),
+        ("core", "applyStateToOriginal (flagged) maps number densities back", lambda: M(C, "applyStateToOriginal", "mapNumberDensities=False,", "mapNumberDensities=True,")),
+        ("core", "applyStateToOriginal: a zero core parameter overwrites the cached original",
+         lambda: M(C, "_mapStateFromReactorToOther", "                sourceReactor.core.p[paramName]\n                or paramName not in self._cachedReactorCoreParamData", "                True")),
+        ("core", "applyStateToOriginal (flagged): the stored original assembly is not put back",
+         lambda: M(C, "applyStateToOriginal", "                        self._sourceReactor.core.removeAssembly(assem, discharge=False)\n                        self._sourceReactor.core.add(storedAssem)\n", "")),
+        ("core", "convert (new reactor): block parameters of the 'in' list are not mapped", lambda: M(C, "_buildAllUniformAssemblies", "paramMapper=self.paramMapper,", "paramMapper=None,")),
         ("common", "average1DWithinTolerance: rows exactly at the tolerance dropped",
          lambda: M(mathematics, "average1DWithinTolerance", "(diff > tolerance)", "(diff >= tolerance)", also=(um,))),
         ("common", "seed C11-1: _decuspAxialMesh bottoms pass anchors only the fuel bottoms",
@@ -802,9 +932,12 @@ def selftest():
         finally:
             _ST.update(on=False, parts=None, stride=1)
 
+    only = [x for x in os.environ.get("C11_SELFTEST_ONLY", "").split(",") if x]
+    if only:
+        mutants = [m for m in mutants if m[0] in only]
     t0 = time.time()
     base = {}
-    for part in PARTS:
+    for part in (only or PARTS):
         base[part] = detect((part,), 3 if part == "remesh" else 1)
         print("baseline %-9s %s" % (part, "clean" if not base[part] else "findings on the unchanged tree: %s" % base[part]))
     missed = 0
@@ -823,3 +956,194 @@ def selftest():
             print("MISSED  %-95s" % label)
     print("selftest: %d mutants, %d missed, %.1fs" % (len(mutants), missed, time.time() - t0))
     return 0 if not missed else 1
+
+
+# ------------------------------------------------------------------------------------------------------------
+# CoreRemesh: whole-core convert / applyStateToOriginal on a real third-core Reactor
+# ------------------------------------------------------------------------------------------------------------
+CZU = 10.0  # cm per whole unit of CoreRemesh (the model works in twelfths of a unit)
+CORE_PNAME = {"HM": "massHmBOL", "I": "power", "IA": "mgFlux", "A": "pdens", "P": "fluxPeak", "GI": "mgFluxGamma", "GA": "mgGammaSrc",
+              "CU": "detailedDpa"}
+CORE_SCALAR = ("HM", "I", "A", "P", "CU")
+CORE_POS = ((1, 1), (2, 1), (2, 2), (3, 2))   # ring, position of assemblies 1..4 in the third core (1 = centre, symmetry factor 3)
+_SHELL = {}
+
+
+class CoreAdapter:
+    """A blueprint-built third-core Reactor (armi/tests/detailedAxialExpansion) is used as the shell: its assemblies are taken
+    out and replaced by generated ones, so that converter.convert() can build its new reactor from real blueprints."""
+
+    def __init__(self):
+        armi_ready()
+        from armi.reactor.converters import uniformMesh
+
+        from harness import gen_assembly
+
+        self.um, self.ga = uniformMesh, gen_assembly
+
+    def shell(self):
+        if "r" not in _SHELL:
+            from armi.testing import loadTestReactor
+            from armi.tests import TEST_ROOT
+
+            o, r = loadTestReactor(inputFilePath=os.path.join(TEST_ROOT, "detailedAxialExpansion"))
+            _SHELL["o"], _SHELL["r"] = o, r
+            _SHELL["cs"] = {}
+        r = _SHELL["r"]
+        for a in list(r.core):
+            r.core.removeAssembly(a, discharge=False)
+        r.core.p.power = 0.0
+        return _SHELL["o"], r
+
+    def cs_for(self, mode):
+        if mode not in _SHELL["cs"]:
+            flags = {"new": [], "flagControl": ["control"], "flagFuel": ["fuel"]}[mode]
+            _SHELL["cs"][mode] = _SHELL["o"].cs.modified(newSettings={"nonUniformAssemFlags": flags})
+        return _SHELL["cs"][mode]
+
+    def build(self, root):
+        o, r = self.shell()
+        sc = root["scale"]
+        g = r.core.spatialGrid
+        for k, a in enumerate(root["obs"]["core"]):
+            n = len(a["tops"])
+            t = [0] + a["tops"]
+            heights = [(t[i + 1] - t[i]) * CZU / sc for i in range(n)]
+            kinds = ["grid plate" if i == 0 else (("fuel" if a["asmFuel"] else "control") if i == 1 else "plenum") for i in range(n)]
+            dens = [{NUCOF[c]: rat(a["n"][i][c]) * NU for c in NUCOF if rat(a["n"][i][c]) != 0} for i in range(n)]
+            params = [{CORE_PNAME[p]: val(a["p"][i][p], p in CORE_SCALAR) for p in CORE_PNAME} for i in range(n)]
+            asm = self.ga.build_assembly(heights, kinds, dens, params, assem_type="fuel" if a["asmFuel"] else "control",
+                                         assem_num=r.incrementAssemNum())
+            i, j = g.getIndicesFromRingAndPos(*CORE_POS[k])
+            loc = g[int(i), int(j), 0]
+            if k == 0:
+                asm.spatialLocator = loc   # the values are those HELD at the centre: no rescaling by the symmetry factor on entry
+                r.core.add(asm)
+            else:
+                r.core.add(asm, loc)
+            want = 3.0 if k == 0 else 1.0
+            if asm.getSymmetryFactor() != want:
+                raise tlc.MachineryError("generated core: symmetry factor %s at %s" % (asm.getSymmetryFactor(), CORE_POS[k]))
+        r.core.p.power = rat(root["obs"]["rp"])
+        return {"r": r, "conv": None, "n": len(root["obs"]["core"]), "mode": None}
+
+    def by_pos(self, core, n):
+        m = {tuple(int(x) for x in a.spatialLocator.getRingPos()): a for a in core}
+        return [m.get(CORE_POS[k]) for k in range(n)]
+
+    def apply(self, w, act, post):
+        n = act["n"]
+        r = w["r"]
+        if n == "Convert":
+            cs = self.cs_for(act["mode"])
+            w["mode"] = act["mode"]
+            if act["cls"] == "neutronics":
+                w["conv"] = self.um.NeutronicsUniformMeshConverter(cs=cs, calcReactionRates=False)
+            else:
+                w["conv"] = self.um.GammaUniformMeshConverter(cs=cs)
+            w["conv"].convert(r)
+        elif n == "Convert2":
+            w["conv"].convert(r)
+        elif n == "Solve":
+            cr = w["conv"].convReactor
+            for a, ao in zip(self.by_pos(cr.core, w["n"]), post["obs"]["conv"]):
+                for b, pv in zip(a, ao["p"]):
+                    for p, name in CORE_PNAME.items():
+                        v = val(pv[p], p in CORE_SCALAR)
+                        if v is None:
+                            b.p[name] = None
+                        else:
+                            self.ga.set_param(b, name, v)
+            cr.core.p.power = rat(post["obs"]["crp"])
+        elif n == "Apply":
+            w["conv"].applyStateToOriginal()
+        elif n == "Grow":
+            w["conv"].reset()
+            for a in r.core:
+                b = a[1]
+                b.setHeight(b.getHeight() + act["d"] * CZU)
+            r.core.updateAxialMesh()
+        else:
+            raise AssertionError("unknown action " + n)
+
+    def project_asm(self, a):
+        names = list(CORE_PNAME.values())
+        inv = {v: k for k, v in CORE_PNAME.items()}
+        bs = [self.ga.block_state(b, pnames=names) for b in a]
+        tot = {"HM": [0.0], "I": [0.0], "IA": [0.0, 0.0], "GI": [0.0, 0.0]}
+        for s in bs:
+            for p in tot:
+                v = s["p"][CORE_PNAME[p]]
+                if v is not None:
+                    v = v if isinstance(v, list) else [v]
+                    tot[p] = [x + y for x, y in zip(tot[p], v)]
+        return {"tops": [float(b.p.ztop) for b in a], "n": [{c: s["n"][NUCOF[c]] for c in NUCOF} for s in bs],
+                "p": [{inv[k]: v for k, v in s["p"].items()} for s in bs],
+                "atoms": {c: self.ga.atoms_per_area(a, NUCOF[c]) for c in NUCOF}, "tot": tot}
+
+    def expect_asm(self, a, sc):
+        k = len(a["tops"])
+        return {"tops": [t * CZU / sc for t in a["tops"]], "n": [{c: rat(a["n"][i][c]) * NU for c in NUCOF} for i in range(k)],
+                "p": [{p: val(a["p"][i][p], p in CORE_SCALAR) for p in CORE_PNAME} for i in range(k)],
+                "atoms": {c: rat(a["atoms"][c]) * NU * CZU / sc for c in NUCOF}, "tot": {p: [rat(x) for x in a["tot"][p]] for p in a["tot"]}}
+
+    def compare(self, w, st):
+        """first difference between TLC's observation of this state and the real reactors"""
+        sc, o, stage = st["scale"], st["obs"], st["stage"]
+        mode = w["mode"]
+        sides = []
+        if stage in ("orig", "back", "grown") or mode == "new":
+            sides.append(("core", w["r"].core, o["core"]))
+        if stage in ("conv", "solved", "conv2"):
+            sides.append(("conv", w["conv"].convReactor.core, o["conv"]))
+        for label, core, exp in sides:
+            real = self.by_pos(core, w["n"])
+            if len(list(core)) != w["n"] or any(a is None for a in real):
+                return ".%s: expected %d assemblies at %s, observed %s" % (label, w["n"], CORE_POS[: w["n"]], [str(a) for a in core])
+            for k, (a, e) in enumerate(zip(real, exp)):
+                d = rp.diff(self.expect_asm(e, sc), self.project_asm(a), ".%s[%d]" % (label, k), rtol=RTOL, atol=1e-30)
+                if d:
+                    return d
+        if stage in ("conv", "solved", "conv2"):
+            got = w["conv"]._uniformMesh if mode == "new" else w["conv"].convReactor.core.p.axialMesh[1:]
+            d = rp.diff([x * CZU / sc for x in o["mesh"]], [float(x) for x in got], ".mesh", rtol=RTOL)
+            if d:
+                return d
+            d = rp.diff(rat(o["crp"]), float(w["conv"].convReactor.core.p.power), ".coreParam.converted", rtol=RTOL)
+            if d:
+                return d
+        if stage in ("orig", "back", "grown"):
+            d = rp.diff(rat(o["rp"]), float(w["r"].core.p.power), ".coreParam.original", rtol=RTOL)
+            if d:
+                return d
+        return None
+
+
+def run_core_history(ad, leaf, by_key, done):
+    """Execute one maximal history on a real reactor, comparing every prefix state not compared before.  -> list of divergences"""
+    ini = rp.skey(leaf["ini"])
+    hist = leaf["hist"]
+    root = by_key[(ini, "[]")]
+    k = 0
+    out = []
+    try:
+        w = ad.build(root)
+        for k in range(len(hist) + 1):
+            st = by_key[(ini, rp.skey(hist[:k]))]
+            if k:
+                ad.apply(w, hist[k - 1], st)
+            if (ini, rp.skey(hist[:k])) in done:
+                continue
+            done.add((ini, rp.skey(hist[:k])))
+            d = ad.compare(w, st)
+            if d:
+                out.append({"first_difference": d, "ini": leaf["ini"], "behaviour": hist[:k], "action": hist[k - 1] if k else {"n": "Init"},
+                            "expected": st["obs"]})
+    except tlc.MachineryError:
+        raise
+    except Exception as ex:  # noqa: BLE001  an exception escaping a legal operation of armi is a divergence
+        import traceback
+
+        out.append({"first_difference": ".exception: %s escaped from the real code: %s" % (type(ex).__name__, str(ex)[:300]), "ini": leaf["ini"],
+                    "behaviour": hist[:k], "action": hist[k - 1] if k else {"n": "Init"}, "observed": {"exception": traceback.format_exc()[-2500:]}})
+    return out
